@@ -69,5 +69,8 @@ class SMMapSet(
         sms = super(SMMapSet, self).rate(by=by)
         sms.sample_start /= by
         sms.sample_length /= by
+        # The file offset (#OFFSET, ms of beat 0) is a time as well
+        if sms.offset is not None:
+            sms.offset /= by
 
         return sms
